@@ -458,6 +458,21 @@ def _ref_parse(text, header_override, process, strip_quotes=True):
     return out
 
 
+def _same_types(a, b):
+    """equal values also of the same kind: an int column holds ints, not
+    floats that compare equal"""
+    if isinstance(a, dict) and isinstance(b, dict):
+        return set(a) == set(b) and all(_same_types(a[k], b[k]) for k in a)
+    if isinstance(a, (list, tuple)) and isinstance(b, (list, tuple)):
+        return len(a) == len(b) and all(_same_types(x, y)
+                                        for x, y in zip(a, b))
+    if isinstance(a, bool) or isinstance(b, bool):
+        return isinstance(a, bool) and isinstance(b, bool)
+    if isinstance(a, (int, float)) and isinstance(b, (int, float)):
+        return isinstance(a, int) == isinstance(b, int)
+    return True
+
+
 def _conv_int(x):
     try:
         return int(x)
@@ -507,12 +522,14 @@ def c18_mapfile(w, ev, slot):
         h = V.crc(salt, i)
         fields = {
             'Treatment': ['Control', 'Fast', '"Quoted"', 'x y'][h % 4],
-            'Depth': ['12', '7', 'n/a', '003'][(h >> 2) % 4],
+            'Depth': ['12', '7', 'n/a', '003', '9007199254740993', '3.5'][
+                (h >> 2) % 6],
             'pH': ['6.5', '7', 'unknown', '1e-3'][(h >> 4) % 4],
             'taxonomy': ['k__A; p__B', 'k__A;p__C; g__D', 'Unassigned'][
                 (h >> 6) % 3],
             'Paths': ['a;b|c;d', 'x', 'm; n | o'][(h >> 8) % 3],
-            'Note': ['', 'free text', ' padded '][(h >> 10) % 3],
+            'Note': ['', 'free text', ' padded ', 'in\x0bcell break',
+                     'sep\u2028inside'][(h >> 10) % 5],
         }
         row = [i] + [fields[cname] for cname in cols]
         if (h >> 12) % 5 == 0 and len(row) > 2:
@@ -568,7 +585,8 @@ def c18_mapfile(w, ev, slot):
     # same layout applied to several sources): neither belongs to the parser
     hdr_arg = list(override) if override else None
     proc_arg = dict(libproc)
-    for label, src in (('list of lines', text.splitlines(True)),
+    for label, src in (('list of lines', [ln + '\n' for ln in
+                                          text.split('\n')][:-1]),
                        ('file handle', open(path, encoding='utf8')),
                        ('path', path)):
         try:
@@ -581,7 +599,8 @@ def c18_mapfile(w, ev, slot):
         finally:
             if hasattr(src, 'close'):
                 src.close()
-        if dict(got) != want_direct:
+        if dict(got) != want_direct or not _same_types(dict(got),
+                                                       want_direct):
             w.fail('c18.mapfile', 'MetadataMap.from_file(%s, strip_quotes=%s) '
                    'parsed %r, the rows describe %r'
                    % (label, not keep_quotes, dict(got), want_direct))
